@@ -97,6 +97,54 @@ def sweep_front(profile, n_quick, n_thorough, cats=None, corpus=None):
     return f
 
 
+def sweep_runner(ctx, results):
+    """C13/C15/C18: flags x path spellings x output-path states through the CLI, against Model/Runner and the judges"""
+    outp = os.path.join(ctx["scratch"], "runner-%d.json" % ctx["widen"])
+    bases = (6 if ctx["tier"] == "quick" else 30) * (2 if ctx["widen"] > 1 else 1)
+    cmd = [ctx["harness"], "runner", "-cli", ctx["cli"], "-driver", ctx["driver"], "-prop", ctx["pid"], "-bases", str(bases),
+           "-seed", str(ctx["seed"]), "-replays", ctx["replays"], "-out", outp]
+    if ctx["tier"] == "thorough":
+        cmd.append("-thorough")
+    rc, out = ctx["run"](cmd, cwd=ctx["scratch"])
+    ctx["log"](out.strip()[-1500:])
+    _take_summary(ctx, results, outp, out)
+
+
+def sweep_history(ctx, results):
+    """C12: stale / truncated / broken content at the output path, edit-run histories"""
+    outp = os.path.join(ctx["scratch"], "history-%d.json" % ctx["widen"])
+    bases = (2 if ctx["tier"] == "quick" else 6) * (2 if ctx["widen"] > 1 else 1)
+    cmd = [ctx["harness"], "history", "-cli", ctx["cli"], "-bases", str(bases), "-seed", str(ctx["seed"]),
+           "-replays", ctx["replays"], "-out", outp]
+    if ctx["tier"] == "thorough":
+        cmd.append("-thorough")
+    rc, out = ctx["run"](cmd, cwd=ctx["scratch"])
+    ctx["log"](out.strip()[-1500:])
+    _take_summary(ctx, results, outp, out)
+
+
+def _take_summary(ctx, results, outp, out):
+    if not os.path.exists(outp):
+        results["notes"].append("sweep failed: " + out[-1500:])
+        results["disagreements"].append({"case": "sweep-run", "diffs": [out[-800:]]})
+        return
+    s = json.load(open(outp))
+    results["evaluations"] += s["cases"]
+    results["distinct_nontrivial"] += s.get("nonTrivial", 0)
+    results["traces"] += s["agree"]
+    _merge_distribution(results, {"feature:" + k: v for k, v in (s.get("features") or {}).items()})
+    _merge_distribution(results, {"cli:" + k: v for k, v in (s.get("cliClasses") or {}).items()})
+    results["samples"] += (s.get("samples") or [])[:2]
+    for d in s.get("disagreements") or []:
+        results["disagreements"].append(d)
+    for j in s.get("judgements") or []:
+        results["judgements"].append(j)
+
+
+RUNNER_RULE = ("the built CLI as a black box: %s; the whole scratch module is hashed before and after every run; the Lean runner "
+               "model predicts exit status, stdout and the set of files written, with `core` instantiated by a reference -dry -print "
+               "run in a pristine copy; distinct = distinct (core result class, flag set, output-path state, cwd) tuples")
+
 # ------------------------------------------------------------------------------------------------
 # properties
 
@@ -168,6 +216,51 @@ PROPS = {
                        "order; adaptation correct where declared pointer-ness is the real one (witness for arg style by-value dst); "
                        "acceptance implies fitting operands and error shape",
         "assumptions": [],
+    },
+    "C12": {
+        "bridge": [],
+        "extra_modules": ["Convergen.Props.C15"],
+        "sweeps": [sweep_history],
+        "rule": "for accepted base cases: the previous output, every truncation of it (quick: the first 130 offsets + 30 random; "
+                "thorough: all offsets), broken Go of the same package, garbage, an empty file, the output of an older/newer setup "
+                "version left at the output path; then run twice; judged against the run in a clean copy (exit status, bytes); "
+                "every step is distinct and non-trivial (non-empty history)",
+        "explanation": "for every core that is a function of the visible world: worlds that differ only at the output path give the "
+                       "same exit/stdout/stderr/bytes (run_ignores_output), repair after any leftover (repair), idempotence; partial: "
+                       "what go list reads of the withheld file is outside the model and explored by the history sweep",
+        "assumptions": ["core (go list .. gofmt) is a function of the file system with the output path withheld (checked by the history sweep, not proved)"],
+    },
+    "C13": {
+        "bridge": [],
+        "sweeps": [sweep_runner, sweep_front("imports", 60, 1500, cats=["body", "header", "exit", "stderr"])],
+        "rule": RUNNER_RULE % "8 runs per accepted base case in fresh processes: relative / ./relative / absolute input path, cwd = module "
+                "root or package directory, GOFILE; byte equality of output, exit status and canonical stderr across the repetitions",
+        "explanation": "LookupPath is independent of the map iteration order when import names are pairwise distinct (witness for two "
+                       "leftover `_` entries); NewImportNames is a function of the specs in source order; the run is a function of "
+                       "(config, core, world); partial: go list / goimports / go/printer determinism is only observed",
+        "assumptions": ["go list, goimports and go/printer are deterministic (observed by repetition only)",
+                        "marker strings do not occur in user text"],
+    },
+    "C15": {
+        "bridge": ["Convergen.Bridge.Tables"],
+        "sweeps": [sweep_runner],
+        "rule": RUNNER_RULE % "accepted and rejected inputs x the 16 combinations of -dry/-print/-log/-out x path spellings (relative, "
+                "./relative, absolute, package directory, GOFILE) x output-path states (absent, stale file, missing directory, "
+                "directory at the path, other file name in a sub directory)",
+        "explanation": "frame (no path but output and log changes), dirs unchanged, no log without -log, -dry and failed runs keep the "
+                       "output path as it was, setup file untouched: for every core, config and world",
+        "assumptions": ["os.WriteFile either writes the output path or leaves it (a partially failing write is OS-defined)"],
+    },
+    "C18": {
+        "bridge": ["Convergen.Bridge.Tables"],
+        "extra_modules": ["Convergen.Props.C15"],
+        "sweeps": [sweep_runner],
+        "rule": RUNNER_RULE % "accepted inputs x the 16 flag combinations x path spellings (relative, ./relative, absolute, package "
+                "directory, GOFILE) x output-path states; judged: code at the documented path, stdout = code under -print, log next "
+                "to the output, nothing on stdout without -print",
+        "explanation": "default output path / -out / GOFILE from parseArgs; -print mirrors the written (or would-be written) bytes on "
+                       "every successful run; without -print nothing is added to stdout; -log neutral for the generate step",
+        "assumptions": ["flag parsing is modelled for the four documented flags (the flag package itself is not)"],
     },
     "C14": {
         "bridge": TABLES,
